@@ -283,7 +283,7 @@ def _undo_threading(ctx, m, rep, cl):
             continue
         body = repl[3]
         mvar = ("bound", repl[2][0], repl[1])
-        okb = M.is_call(body) and body[1] == ("global", f_addr.module.name, f_match.name)
+        okb = M.is_call(body) and body[1] == ("global", f_match.module.name, f_match.name)
         b = bind_args(body, f_match) if okb else None
         okb = okb and b is not None and b.get(f_match.mparams[0]) == ap and b.get(f_match.mparams[1]) is not None and M.group0(b.get(f_match.mparams[1]), mvar) and b.get(f_match.mparams[2]) == up
         rep.ob(cl + ".sub-callable", f_addr.name, okb,
